@@ -648,7 +648,7 @@ Definition table_commit (tbl : list (N * N)) (s : tstate) (batch : list N) : cre
 
 Inductive op :=
 | OpIngest (k : hkey) (id : N) | OpTicketed (k : hkey) (id ticket : N) | OpPass
-| OpResolve (g rid : N) | OpElig (k : hkey) (b : bool) | OpSwapProv.
+| OpResolve (g rid : N) | OpElig (k : hkey) (b : bool) | OpSwapProv | OpJumpGlobal (k : hkey) (id : N).
 
 Definition disp_code (d : disp) : N :=
   match d with
@@ -666,9 +666,10 @@ Definition cause_code (c : cause) : N := match c with CauseErr e => err_code e |
 Section Scenario.
 Variable S : Type.
 Variable commit : S -> list N -> cres S.
+Variable f_state_after : N -> S.   (* engine state after replaying a history that committed one intent *)
 
 (* (kind, a, b, steps): kind 0 ingest a=disp; 1 ticketed a,b=disps (b=9: not attempted); 2 pass a=0 ok / err code / 10 panic;
-   3 resolve a=0 ok,1 unknown,2 already; 4 eligibility a=0 ok,1 unknown; 5 swap *)
+   3 resolve a=0 ok,1 unknown,2 already; 4 eligibility a=0 ok,1 unknown; 5 swap; 6 jump a=0 ok,1 unknown worldline *)
 Definition oout := (N * N * N * list step)%type.
 
 Definition run_op (st : rt S * provmap) (o : op) : (rt S * provmap) * oout :=
@@ -701,6 +702,24 @@ Definition run_op (st : rt S * provmap) (o : op) : (rt S * provmap) * oout :=
       | None => ((r, p), (4, 1, 0, []))
       end
   | OpSwapProv => ((r, map (fun wf => (fst wf, [])) (fronts r)), (5, 0, 0, []))
+  | OpJumpGlobal k id =>
+      (* WorldlineRuntime::restore_causal_runtime_history from a fresh provenance service that holds ONE crafted
+         local commit (worldline of k, tick 0, batch [id], commit_global_tick = u64::MAX): the frontier is rebuilt by
+         replay at tick = history length, the committed-ingress ledger is not restored, the global tick becomes
+         max(global tick, entry stamp) *)
+      match find N.compare (wl_of k) (fronts r) with
+      | None => ((r, p), (6, 1, 0, []))
+      | Some _ =>
+          ((with_gtick S
+              (upd S r (heads r)
+                   (set N.compare (wl_of k) {| f_tick := 1; f_state := f_state_after id; f_committed := [] |} (fronts r))
+                   (cor r))
+              (N.max (gtick r) tick_max),
+            set N.compare (wl_of k)
+                [{| e_tick := 0; e_gtick := tick_max; e_head := k; e_cid := 0; e_parent := None; e_batch := [id] |}]
+                (map (fun wf => (fst wf, [])) (fronts r))),
+           (6, 0, 0, []))
+      end
   end.
 
 Fixpoint run_ops (st : rt S * provmap) (ops : list op) : list (oout * (rt S * provmap)) :=
@@ -740,4 +759,4 @@ Definition view (st : rt tstate * provmap) :=
    runnable_keys _ r).
 
 Definition run_case (tbl : list (N * N)) (worlds : list N) (hs : list (hkey * (policy * bool))) (ops : list op) :=
-  map (fun os => (fst os, view (snd os))) (run_ops tstate (table_commit tbl) (rt_init [] worlds hs) ops).
+  map (fun os => (fst os, view (snd os))) (run_ops tstate (table_commit tbl) (fun id => [id]) (rt_init [] worlds hs) ops).
